@@ -119,6 +119,14 @@ def check_reduction(a, spec, name, axis_form, axis_dims, skipna, cl, attrs=None)
     all_nan_fibre = any(all(core.isnan(x) for x in f) for f in fibres.values())
     sig["fibre"] = "all-nan" if all_nan_fibre else ("nan" if any_nan else "finite")
     res = lib(lambda: getattr(a, name)(**kw), what=what, sig=sig)
+    if "axis" in kw and (skipna or name in ("sum", "median", "any", "ptp")):
+        # the documented parameter order f(axis, skipna), both given by position: the same result
+        res_p = lib(lambda: getattr(a, name)(kw["axis"], bool(skipna)), what=what + " [axis, skipna by position]", sig=sig)
+        if isinstance(res, da.DimArray) or isinstance(res_p, da.DimArray):
+            check(isinstance(res, da.DimArray) and isinstance(res_p, da.DimArray), "positional-call-differs", {"what": what}, sig)
+            core.expect_equal_arrays(res_p, res, what + " [positional vs keyword call]", sig=sig)
+        else:
+            check(core.same_scalar(res_p, res), "positional-call-differs", {"what": what, "positional": core.jsonable(res_p), "keyword": core.jsonable(res)}, sig)
     if not remaining:
         # "reduces the whole array to a scalar": a Python or NumPy scalar, not a 0-d ndarray or a 0-d DimArray
         check(not isinstance(res, (da.DimArray, np.ndarray)), "scalar-expected", {"what": what, "got": core.brief(res), "type": type(res).__name__}, sig)
